@@ -96,3 +96,24 @@ CHECKS["C14"] = {
         {"name": "stream", "run": "^TestC14Stream$", "kind": "rapid", "checks": {"quick": 16000, "thorough": 400000}, "shards": {"quick": 8, "thorough": 16}},
     ],
 }
+
+CHECKS["C02"] = {
+    "pkg": "props/c02",
+    "level": "exploration",
+    "rule": "Metamorphic: obs(bytes delivered whole) == obs(same bytes under another segmentation). Server direction: streams of 1..3 requests from the C01 generator (folded headers, chunk boundaries, trailers, pipelined successors), one third structure-aware mutants, buffered and streaming; "
+            "client direction: responses from the wire generator (fixed, chunked+trailers, until-close, bodiless with stray framing, 100-continue interim, folded headers), mutants and trailing second responses, read by the real HostClient.Do through a scripted dialer, buffered and ResponseBodyStream. "
+            "Segmentations per stream: EVERY 2-way cut (streams <= 1500 bytes; otherwise <=260 cuts at part boundaries +-3, 4 KiB multiples +-1 and 1% steps), byte-wise (<= 6000 bytes), and 5 rapid-drawn k-way splits. "
+            "One evaluation = one (stream, segmentation) pair; non-trivial = cut strictly inside a message that has a folded line/chunked body/trailer/pipelined successor; distinct by FNV-64 of (bytes, mode, cuts).",
+    "assumptions": [
+        "observations: server = handler-seen requests, output bytes with Date masked, closed, panicked; client = error class, status, VisitAll header list, body, trailers, connection closed/pooled",
+        "error values are compared by class: the diagnostic buffer dump hertz appends to parse errors (buffer size + quoted snippet) is stripped because it legitimately reflects how much had been read",
+    ],
+    "level_text": "Metamorphic exploration without a reference model: the same bytes must give the same observable result whatever way they are cut into reads; every 2-way split point of every generated stream is enumerated, in both directions and both body modes.",
+    "level_note": "Trusts the scripted connection to deliver exactly the generated fragments (one fragment per Read at most); says nothing about whether the common result is right (C01/C11 do).",
+    "technique": "metamorphic property-based testing (rapid) with exhaustive 2-way split enumeration per generated stream",
+    "nontrivial_floor": 1000,
+    "units": [
+        {"name": "server", "run": "^TestC02Server$", "kind": "rapid", "checks": {"quick": 480, "thorough": 9600}, "shards": {"quick": 12, "thorough": 16}},
+        {"name": "client", "run": "^TestC02Client$", "kind": "rapid", "checks": {"quick": 400, "thorough": 8000}, "shards": {"quick": 4, "thorough": 16}},
+    ],
+}
